@@ -162,73 +162,114 @@ func runC14(c *Ctx) {
 		c.verdict(n >= 2, c.nm(v)+" | every batch goes through ValidateBatch and the cross-batch ValidatePair", c.P.Pos(v.Pos()), "both calls present", "Validate no longer calls ValidateBatch and the cross-batch ValidatePair")
 	})
 
-	c.rule("C14.G5", "no header of the file escapes validation as the subject: pairs only ever validate their second header, so Validate hands the first header of the range to validateFirst before the first ValidateBatch (every ValidateBatch call lies behind validateFirst = nil on the path that has seen no header yet), and validateFirst returns nil only through ValidatePair(<parent from the target store>, first) = nil or ValidateSingle(first) = nil, the parent being fetched at the first header's height - 1", func() {
+	c.rule("C14.G5", "no header of the file escapes validation as the subject: pairs only ever validate their second header, so Validate validates the first header of the range before the first ValidateBatch (through validateFirst, or written out): every ValidateBatch call cannot be reached past a failed first-header validation, the first header (element 0 of the batch) is the subject of ValidatePair(<parent from the target store>, first) or of ValidateSingle(first), and the parent is fetched at the first header's height - 1", func() {
 		bvT := func(m string) *types.Func { return c.method("chainimport", "blockHeadersImportSourceValidator", m) }
 		v := c.fn("(*chainimport.blockHeadersImportSourceValidator).Validate")
-		okCall := false
-		for _, f := range ir.WithClosures(v) {
-			firsts := find(f, callTo(bvT("validateFirst")))
-			batches := find(f, callTo(bvT("ValidateBatch")))
-			if len(batches) == 0 {
-				continue
-			}
-			if len(firsts) == 0 {
-				c.fail(c.nm(f)+" | the first header of the range is validated before the first batch", c.P.Pos(f.Pos()), "Validate never calls validateFirst: the first header of the file is only ever the previous header of a pair")
-				return
-			}
-			okCall = true
-			// an error of validateFirst ends the validation
-			g := errNil("validateFirst(batch[0])", firsts, 0)
-			c.guarded(f, g, 1, "ValidateBatch(batch) right after the first-header check", batches, 1, gFailEdge)
-			// validateFirst's argument is element 0 of the batch being validated
-			for _, in := range firsts {
-				a := argsOf(in)
-				okArg := len(a) == 1 && ir.DerivesFrom(a[0], func(x ssa.Value) bool {
-					ia, ok := x.(*ssa.IndexAddr)
-					if !ok {
-						return false
-					}
-					k, isC := ir.ConstInt(ia.Index)
-					return isC && k == 0
-				})
-				c.verdict(okArg, c.nm(f)+" | validateFirst is given element 0 of the batch", c.at(in), "batch[0]", "validateFirst is not applied to the first element of the batch", c.at(in))
-			}
-		}
-		c.verdict(okCall, c.nm(v)+" | Validate validates the first header of the range", c.P.Pos(v.Pos()), "validateFirst is called where the batches are validated", "no function of Validate calls both validateFirst and ValidateBatch")
-		vf := c.fn("(*chainimport.blockHeadersImportSourceValidator).validateFirst")
-		single := errNil("ValidateSingle(first)", find(vf, callTo(bvT("ValidateSingle"))), 0)
-		pair := errNil("ValidatePair(parent, first)", find(vf, callTo(bvT("ValidatePair"))), 0)
-		c.nilReturnsGuarded(vf, unionGuard("ValidatePair(parent, first) = nil or ValidateSingle(first) = nil", pair, single), 2)
-		// subject and parent of the pair
 		fetch := c.method("headerfs", "BlockHeaderStore", "FetchHeaderByHeight")
 		hF := c.field("headerfs", "BlockHeader", "Height")
-		for _, in := range find(vf, callTo(bvT("ValidatePair"))) {
-			a := argsOf(in)
-			okv := len(a) == 2 && ir.DerivesFrom(a[1], func(x ssa.Value) bool { return x == ssa.Value(vf.Params[1]) }) && ir.DerivesFrom(a[0], func(x ssa.Value) bool {
+		isElem0 := func(x ssa.Value) bool {
+			return ir.DerivesFrom(x, func(y ssa.Value) bool {
+				ia, ok := y.(*ssa.IndexAddr)
+				if !ok {
+					return false
+				}
+				k, isC := ir.ConstInt(ia.Index)
+				return isC && k == 0
+			})
+		}
+		var host *ssa.Function
+		for _, f := range ir.WithClosures(v) {
+			if len(find(f, callTo(bvT("ValidateBatch")))) > 0 {
+				host = f
+			}
+		}
+		if host == nil {
+			c.fail(c.nm(v)+" | Validate validates the first header of the range", c.P.Pos(v.Pos()), "no function of Validate calls ValidateBatch")
+			return
+		}
+		batches := find(host, callTo(bvT("ValidateBatch")))
+		vfObj := c.P.Method("chainimport", "blockHeadersImportSourceValidator", "validateFirst")
+		vf := c.P.Func("(*chainimport.blockHeadersImportSourceValidator).validateFirst")
+		// where the pair / single validation of the first header is written
+		body := host
+		isFirst := isElem0
+		if vf != nil && vfObj != nil {
+			firsts := find(host, callTo(vfObj))
+			if len(firsts) == 0 {
+				c.fail(c.nm(v)+" | Validate validates the first header of the range", c.P.Pos(v.Pos()), "Validate never calls validateFirst: the first header of the file is only ever the previous header of a pair")
+				return
+			}
+			c.R.Funcs[c.nm(vf)] = true
+			c.guarded(host, errNil("validateFirst(batch[0])", firsts, 0), 1, "ValidateBatch(batch) right after the first-header check", batches, 1, gFailEdge)
+			for _, in := range firsts {
+				a := argsOf(in)
+				c.verdict(len(a) == 1 && isElem0(a[0]), c.nm(host)+" | validateFirst is given element 0 of the batch", c.at(in), "batch[0]", "validateFirst is not applied to the first element of the batch", c.at(in))
+			}
+			body = vf
+			isFirst = func(x ssa.Value) bool {
+				return ir.DerivesFrom(x, func(y ssa.Value) bool { return y == ssa.Value(vf.Params[1]) })
+			}
+		}
+		c.verdict(true, c.nm(v)+" | Validate validates the first header of the range", c.P.Pos(v.Pos()), "first-header validation found in "+c.nm(body), "")
+		fromStore := func(v ssa.Value) bool {
+			return ir.DerivesFrom(v, func(x ssa.Value) bool {
+				if valIsCallTo(fetch)(x) {
+					return true
+				}
 				al, ok := x.(*ssa.Alloc)
 				if !ok {
 					return false
 				}
-				fromStore := false
-				ir.Instrs(vf, func(y ssa.Instruction) {
-					if st, ok := y.(*ssa.Store); ok && ir.DerivesFrom(st.Addr, func(z ssa.Value) bool { return z == ssa.Value(al) }) && ir.DerivesFrom(st.Val, valIsCallTo(fetch)) {
-						fromStore = true
+				ok = false
+				ir.Instrs(body, func(y ssa.Instruction) {
+					if st, isSt := y.(*ssa.Store); isSt && ir.DerivesFrom(st.Addr, func(z ssa.Value) bool { return z == ssa.Value(al) }) && ir.DerivesFrom(st.Val, valIsCallTo(fetch)) {
+						ok = true
 					}
 				})
-				return fromStore
+				return ok
 			})
-			c.verdict(okv, c.nm(vf)+" | the pair is (parent fetched from the target store, first header)", c.at(in), "ValidatePair(&blockHeader{parent}, first)", "validateFirst does not validate the first header as the second element of a pair whose first element comes from the target store", c.at(in))
 		}
-		for _, in := range find(vf, callTo(fetch)) {
+		var pairs, singles []ssa.Instruction
+		for _, in := range find(body, callTo(bvT("ValidatePair"))) {
+			// (the cross-batch pair has the previous batch's last header as its first element)
+			if a := argsOf(in); len(a) == 2 && isFirst(a[1]) && !isFirst(a[0]) && fromStore(a[0]) {
+				pairs = append(pairs, in)
+			}
+		}
+		for _, in := range find(body, callTo(bvT("ValidateSingle"))) {
+			if a := argsOf(in); len(a) == 1 && isFirst(a[0]) {
+				singles = append(singles, in)
+			}
+		}
+		if len(pairs) == 0 {
+			c.fail(c.nm(body)+" | the pair is (parent fetched from the target store, first header)", c.P.Pos(body.Pos()), "no ValidatePair call validates the first header of the range against its parent fetched from the target store: the first header is only ever the previous header of a pair")
+			return
+		}
+		c.pass(c.nm(body)+" | the pair is (parent fetched from the target store, first header)", c.P.Pos(body.Pos()), "ValidatePair(&blockHeader{parent}, first)", c.ats(pairs)...)
+		g := unionGuard("ValidatePair(parent, first) = nil or ValidateSingle(first) = nil", errNil("ValidatePair(parent, first)", pairs, 0), errNil("ValidateSingle(first)", singles, 0))
+		if body == vf {
+			c.nilReturnsGuarded(vf, g, 2)
+		} else {
+			// written out in the loop body: a failed validation of the first
+			// header never reaches the batch validation
+			c.guarded(host, errNil("ValidatePair(parent, first)", pairs, 0), 1, "ValidateBatch(batch) after the first-header check", batches, 1, gFailEdge)
+			if len(singles) > 0 {
+				c.guarded(host, errNil("ValidateSingle(first)", singles, 0), 1, "ValidateBatch(batch) after the first-header check", batches, 1, gFailEdge)
+			}
+		}
+		nFetch := 0
+		for _, in := range find(body, callTo(fetch)) {
 			a := argsOf(in)
 			b, isB := ir.Strip(a[0]).(*ssa.BinOp)
-			okv := len(a) == 1 && isB && b.Op == token.SUB && loadsField(hF)(b.X)
-			if okv {
-				k, isC := ir.ConstInt(b.Y)
-				okv = isC && k == 1
+			if len(a) != 1 || !isB || b.Op != token.SUB || !loadsField(hF)(b.X) {
+				continue
 			}
-			c.verdict(okv, c.nm(vf)+" | the parent is fetched at the first header's height - 1", c.at(in), "FetchHeaderByHeight(first.Height - 1)", "the parent of the first header is not fetched at its height minus one", c.at(in))
+			k, isC := ir.ConstInt(b.Y)
+			if isC && k == 1 {
+				nFetch++
+			}
 		}
+		c.verdict(nFetch >= 1, c.nm(body)+" | the parent is fetched at the first header's height - 1", c.P.Pos(body.Pos()), "FetchHeaderByHeight(first.Height - 1)", "the parent of the first header is not fetched at its height minus one")
 	})
 
 	c.rule("C14.K1", "height/index kinds in package chainimport: a target-chain height is never passed where an import-source index is expected (or compared / merged with one); kinds are seeded from field and parameter names (…Height / …Idx, …Index), ChainTip heights and the converter targetHeightToImportSourceIndex, and propagated through arithmetic, phis, parameters and results", func() {
